@@ -984,3 +984,105 @@ def parse_inspect(stdout):
     keys = [k.strip() for k in req.group(1).split(",")] if req and req.group(1).strip() not in ("", "None", "none") else []
     return {"semid": sem.group(1) if sem else None, "cfgid": cfg.group(1) if cfg else None, "required": keys,
             "uuids": re.findall(r"- UUID:\s*(\S+)", stdout), "nodesem": re.findall(r"- Node Semantic ID:\s*(\S+)", stdout)}
+
+
+# ---------------------------------------------------------------------------------------------
+# order of calls on ONE configuration object (direct oracle; no model involved)
+def null_params(nodes):
+    """the same configuration with an explicit null `parameters:` wherever a node has none (legal YAML: `parameters:`)"""
+    out = copy.deepcopy(nodes)
+    changed = False
+    for n in out:
+        if not n.get("parameters"):
+            n["parameters"] = None
+            changed = True
+    return out if changed else None
+
+
+def _payload_ids(p):
+    pn = p["pipeline_spec_canonical"]["nodes"]
+    return {"uuids": [x["uuid"] for x in pn], "nodesem": [x["node_semantic_id"] for x in pn],
+            "semid": p["identity"]["semantic_id"], "cfgid": p["identity"]["config_id"]}
+
+
+def observe_shared(nodes, order):
+    """Identities obtained by performing the operations of `order` one after the other on ONE configuration object
+    (what a program that inspects and then runs its configuration does).  -> list of (operation, ids)"""
+    from semantiva.inspection import build_inspection_payload
+    from semantiva.inspection.builder import build_pipeline_inspection
+    from semantiva.pipeline.graph_builder import build_canonical_spec, compute_pipeline_id
+    from semantiva.pipeline import Pipeline, Payload
+    from semantiva.context_processors.context_types import ContextType
+    from semantiva.logger import Logger
+    s = copy.deepcopy(nodes)
+    got = []
+    for op in order:
+        if op == "payload":
+            got.append((op, _payload_ids(build_inspection_payload(s))))
+        elif op == "inspect":
+            build_pipeline_inspection(s)
+            canonical, _ = build_canonical_spec(s)
+            got.append((op, {"uuids": [n["node_uuid"] for n in canonical["nodes"]], "plid": compute_pipeline_id(canonical)}))
+        elif op == "canonical":
+            canonical, _ = build_canonical_spec(s)
+            got.append((op, {"uuids": [n["node_uuid"] for n in canonical["nodes"]], "plid": compute_pipeline_id(canonical)}))
+        else:
+            rec = Recorder()
+            p = Pipeline(s, trace=rec, logger=Logger(level="CRITICAL"))
+            ids = {"uuids": [n["node_uuid"] for n in p.canonical_spec["nodes"]], "plid": compute_pipeline_id(p.canonical_spec)}
+            try:
+                ctx = ContextType()
+                for key in KEYS:
+                    ctx.set_value(key, [1.0, 2.0, 3.0] if key in ("seq", "tk", "sk") else 2.0)
+                p.process(Payload(None, ctx))
+            except BaseException as ex:  # noqa - only pipeline_start is observed
+                if isinstance(ex, KeyboardInterrupt):
+                    raise
+            if rec.starts:
+                st = rec.starts[-1]
+                ids["run_plid"] = st["pipeline_id"]
+                m = st["meta"]
+                ids["semid"], ids["cfgid"] = m.get("semantic_id"), m.get("config_id")
+            got.append((op, ids))
+    return got
+
+
+HASHSEED_CHILD = r"""
+import json, sys
+from harness.lib import idgen as G
+G.setup()
+from harness.lib import components as C
+from semantiva.inspection import build_inspection_payload
+cfgs = json.load(sys.stdin)
+out = []
+for nodes in cfgs:
+    for n in nodes:
+        if isinstance(n.get("processor"), str) and n["processor"].startswith("@"):
+            n["processor"] = getattr(C, n["processor"][1:])
+    try:
+        p = build_inspection_payload(nodes)
+        out.append({"ids": G._payload_ids(p), "required": sorted(p["required_context_keys"])})
+    except Exception as ex:
+        out.append({"error": "%s: %s" % (type(ex).__name__, str(ex)[:200])})
+print("IDS " + json.dumps(out))
+"""
+
+
+def hashseed_configs():
+    """sweeps whose element has several required and several defaulted parameters that no expression binds, several
+    from_context variables, several swept parameters: everything that is a SET inside the implementation"""
+    many = "@VerifManyParamOperation"
+    src = {"processor": "FloatValueDataSource", "parameters": {"value": 1.0}}
+    return [
+        [src, {"processor": many, "derive": {"parameter_sweep": {"parameters": {"alpha": "t"}, "variables": {"t": [1.0, 2.0]},
+                                                                  "collection": "FloatDataCollection"}}}],
+        [src, {"processor": many, "derive": {"parameter_sweep": {"parameters": {"alpha": "t + s", "eps": "s"},
+                                                                  "variables": {"t": {"from_context": "tk"}, "s": {"from_context": "sk"},
+                                                                                "u": {"from_context": "seq"}, "w": [1.0, 2.0]},
+                                                                  "mode": "by_position", "broadcast": True,
+                                                                  "collection": "FloatDataCollection"}}}],
+        [src, {"processor": many, "parameters": {"beta": 1.0, "zeta": 4.0},
+               "derive": {"parameter_sweep": {"parameters": {"gamma": "2 * t", "alpha": "t"}, "variables": {"t": {"lo": 0.0, "hi": 1.0, "steps": 3}},
+                                              "collection": "FloatDataCollection"}}}],
+        [src, {"processor": many}],
+    ]
